@@ -61,6 +61,16 @@ def r_guards(ctx, model):
               found="; ".join(bad[:4]) or f"{n} cells as required",
               explanation="fill_cij's refusals do not match the decision table of the property (a guard compares wrongly, a flag "
                           "disables the wrong refusal, or a refusal is missing)", key="guards.table")
+    rc = getattr(sc, "rcond", None)
+    try:
+        rc_ok = rc is None or float(rc) <= 1e-14
+    except (TypeError, ValueError):
+        rc_ok = False
+    ctx.check(rc_ok, "rank and residual come from a least-squares solve at machine-precision rcond", w,
+              expected="numpy.linalg.lstsq(a, b) with rcond omitted, None, -1 or <= 1e-14", found=f"rcond = {rc}",
+              explanation=f"fill_cij calls lstsq with rcond = {rc}: singular values below that fraction of the largest are treated as zero, "
+                          "so the reported rank (the sufficiency refusal) and the solution depend on the scale of the relation rows",
+              key="guards.rcond")
     ctx.check(not untouched, "table untouched when fill refuses", w, expected="no store into the table before both guards",
               found="; ".join(untouched[:3]) or "unchanged in every refusing cell",
               explanation="solved values are written into the caller's table before fill_cij refuses", key="guards.before_writeback")
@@ -153,6 +163,12 @@ def r_only_moduli(ctx, model):
         raise AnalysisError(f"fill_cij refuses: {r[1]}")
     out = r[1]
     bad = [c for c in ("V", "flag", "P") if out.cols.get(c) != sp.Symbol(f"COL_{c}", real=True)]
+    from ..fillmodel import DROP_ATOL
+    tests = list(sc.drop_tests)
+    ctx.check(bool(tests) and all(t == DROP_ATOL for t in tests), "vanishing components are judged against the caller's drop tolerance", w,
+              expected="numpy.allclose(column, 0, atol=drop_atol)", found=f"atol = {sorted({str(t) for t in tests})}",
+              explanation="the test that omits a component uses another tolerance than the drop_atol argument (or none), so components "
+                          "below the requested drop tolerance are kept or larger ones are dropped", key="drop_atol")
     ctx.check(not bad, "non-modulus columns pass through untouched, even when all-zero", w, expected="V, flag, P kept",
               found=f"missing or changed: {bad}", explanation="a non-modulus column is dropped or overwritten by fill_cij", key="only_moduli")
     # a name that merely contains digits is not a modulus column either way is out of the property's scope
@@ -185,11 +201,17 @@ def r_cli(ctx, model):
               "option defaults agree with fill_cij (flags off, drop_atol)", w, expected=f"flags False, drop_atol {defaults.get('drop_atol')}",
               found=f"drop_atol default {src(d) if d is not None else None}; flags_ok {flags_ok}",
               explanation="the command's defaults differ from the function's", key="cli.defaults")
-    # main forwards **kwargs after popping only the file name
-    fw = [c for c in ast.walk(cli) if isinstance(c, ast.Call) and (dotted_name(c.func) or "").split(".")[-1] == "fill_cij"]
-    ok = len(fw) == 1 and any(k.arg is None for k in fw[0].keywords) and len(fw[0].args) == 1
-    ctx.check(ok, "cij fill forwards its options to fill_cij", w, expected="fill_cij(elast, **kwargs)", found=src(fw[0]) if fw else "no call",
-              explanation="the options given on the command line do not reach fill_cij", key="cli.forward")
+    # what the command hands to fill_cij, bound to fill_cij's signature (positional, keyword or **kwargs forwarding alike)
+    from .C17 import fold_fillcmd
+    _, _, cap, optm, fparams = fold_fillcmd(ctx, model)
+    bound = cap.get("fill", {})
+    wrong = [f"{p_} <- {bound.get(p_)!r}" for p_ in fparams[1:] if p_ in optm and bound.get(p_) != optm[p_]]
+    wrong += [f"{p_} <- {v!r}" for p_, v in bound.items() if p_ not in optm and p_ != fparams[0]]
+    ctx.check("raised" not in cap and bound and not wrong, "cij fill forwards every option to the like-named parameter of fill_cij", w,
+              expected="system, ignore_residuals, ignore_rank, drop_atol (and any further option) reach the parameter they are named after",
+              found=f"raises {cap['raised']}" if "raised" in cap else (f"mismatched: {wrong}" if wrong else f"{sorted(bound)}"),
+              explanation="an option given on the command line does not reach fill_cij, or reaches another parameter (e.g. the two ignore "
+                          "flags or the two tolerances crossed by a positional call)", key="cli.forward")
     schema = json.loads((REPO / "cij" / "data" / "schema" / "config.schema.json").read_text())
     keys = set(schema["definitions"]["elast_settings"]["properties"]["symmetry"]["properties"])
     ctx.check(keys <= set(params[1:]) and {"system", "ignore_rank", "ignore_residuals"} <= keys, "schema symmetry keys are fill_cij keyword parameters",
